@@ -157,6 +157,8 @@ def run_in_big_thread(fn):
 def execute(prog, entry, intmode="bv", params=None, setup=None, unwind=64, prune=True, globals_init=None,
             harness_pkgs=(), panic_is_obligation=True, access_log=False, concrete=None):
     """symbolically execute one harness entry point; returns (ctx, ex)"""
+    prog.opaque = {}
+    prog._lay.clear()
     ctx = Ctx(prog, intmode=intmode, unwind=unwind, prune=prune)
     ctx.params = dict(params or {})
     ctx.panic_is_obligation = panic_is_obligation
